@@ -168,6 +168,22 @@ partial def populated : HF.Expr → List String
   | .method (.var "Fiber") "fromLazy" _ [e] => populated e
   | _ => []
 
+/-- the variables a translated program binds (tags or clobbers) -/
+partial def boundVars : Taint.Prog → List String
+  | .op (.setConst x _) => [x]
+  | .op (.copyFrom x _) => [x]
+  | .op (.clobber x) => [x]
+  | .op (.mutate _) => []
+  | .skip => []
+  | .seq p q => boundVars p ++ boundVars q
+  | .loop b => boundVars b
+  | .alt p q => boundVars p ++ boundVars q
+
+/-- a loop, preceded by forgetting whatever an earlier part of the program left in the variables its body binds
+    (`C07.run_fewer_clobbers`: these virtual `clobber`s only lose information) -/
+def loopForgetting (body : Taint.Prog) : Taint.Prog :=
+  (boundVars body).eraseDups.foldr (fun x acc => .seq (.op (.clobber x)) acc) (.loop body)
+
 partial def taintOf : HF.Stmt → Taint.Prog
   | .block ss => ss.foldr (fun s acc => .seq (taintOf s) acc) .skip
   | .for_ p e b =>
@@ -182,7 +198,7 @@ partial def taintOf : HF.Stmt → Taint.Prog
       | .tuple [c, pay] => clobberAll c ++ bindPat pay e'
       | q => clobberAll q
     let muts : List Taint.TOp := (populated e').map fun v => .mutate v
-    .loop ((posOps ++ muts ++ ops).foldr (fun o acc => .seq (.op o) acc) (taintOf b))
+    loopForgetting ((posOps ++ muts ++ ops).foldr (fun o acc => .seq (.op o) acc) (taintOf b))
   | .if_ _ t _ es el =>
     let rest : Taint.Prog := match el with
       | some x => taintOf x
